@@ -183,6 +183,7 @@ func SmallCfg(r *rand.Rand, typ string, o Opts) Cfg {
 		return 1 + r.Intn(max)
 	}
 	switch typ {
+	case "PB":
 	case "HP", "BHP":
 		c.InputLen = 2 + r.Intn(7)
 		c.HashBits = hashBits(c.InputLen)
